@@ -10,6 +10,11 @@ import numpy as np
 from fractions import Fraction as F
 from vf import q, qlist, clist, cbool, cnat, copt, frac, fr_json, TranslatorError, VERIF, REPO
 
+# numba's on-disk cache next to /repo's sources is shared by every concurrently running check; for functions that take a
+# dispatcher argument (dew_point.gamma_iter) a concurrently rewritten index makes numba raise
+# "ReferenceError: underlying object has vanished".  Use a cache directory of this check's own (performance only).
+os.environ.setdefault('NUMBA_CACHE_DIR', os.path.join(os.path.dirname(os.path.dirname(os.path.abspath(__file__))), '.cache', 'numba_C08'))
+
 ID = 'C08'
 COQ_DIR = 'C08'
 COQ_HEADER = 'From V Require Import Common.Num C08.Model.\nOpen Scope Q_scope.'
@@ -21,12 +26,14 @@ RULE = ('five case kinds over packages of 1-5 stub chemicals (quadratic dyadic P
         'raising stand-ins: result or exception class, normalised output, the composition arguments handed to the solver '
         '(z pre-processing), N==0 / N==1 / N>=2 branches, negative and zero entries, unnormalised and trace compositions; '
         '(tsat) Chemical.Tsat branches; (cache) histories of constructor calls, object identity pattern and Tmin/Tmax/Pmin/Pmax '
-        'of every returned instance.  Values to 1e-9 relative, structure exactly.  non-trivial = the call returned values '
+        'of every returned instance; plus two fixed real-chemical cases (Water/Ethanol, k*z and permuted list) evaluated with the direct oracle.  '
+        'Values to 1e-9 relative, structure exactly.  non-trivial = the call returned values '
         '(not an exception) through the N>=2 path or a history with at least one cache hit; distinct = distinct case hash')
 ASSUMPTIONS = [
     'root-finder contract (Section hypotheses secant_ok / iq_ok): when flexsolve.aitken_secant / IQ_interpolation return x, the last '
     'evaluation of the residual they were given was at x and its value was 0 (in floats: within ytol=5e-12 / xtol=1e-9); measured by oracle()',
-    'fixed-point contract (weg_fix): flexsolve.wegstein returns a fixed point of the map it was given (used only for non-ideal Phi / Gamma)',
+    'fixed-point contract (weg_fix S k): flexsolve.wegstein returns a fixed point of the activity-coefficient map dew_point.solve_x hands it '
+    '(used by the ideal-package theorems about the dew point only)',
     'Gamma.f(x, T, *Gamma.args) == Gamma(x, T) for every activity-coefficient class (true by construction of the classes in /repo)',
     'chemical data (Psat handle, Tb, Tc, Pc) do not change between constructor calls (cache_coherent)',
     'length z == number of chemicals of the object; P != 0 when solve_Ty/solve_Tx are called directly',
@@ -40,6 +47,14 @@ TRUSTED = ['model coq/C08/Model.v is hand-written from bubble_point.py, dew_poin
            'BubblePointBeta and the except-branch of dew_point.solve_x for 0/0 are not modelled',
            'stand-in solvers / property classes in props/C08.py mirror stub_secant/stub_iq/stub_weg/stub_gam/stub_phi/stub_pcf of Model.v']
 CASE_TIMEOUT = 60
+
+# ------------------------------------------------------------------ translator
+def translate():
+    import importlib.util
+    spec = importlib.util.spec_from_file_location('C08_kernels', os.path.join(VERIF, 'tr', 'C08_kernels.py'))
+    m = importlib.util.module_from_spec(spec)
+    spec.loader.exec_module(m)
+    return m.generate(REPO)
 
 # ------------------------------------------------------------------ environment
 _env = {}
@@ -180,6 +195,17 @@ def stubbed(shim):
         bpm.flx = e['real_flx']; dpm.flx = e['real_flx']
         chm.IQ_interpolation = e['real_iq']; chm.aitken_secant = e['real_as']
         dpm.gamma_iter = gi
+
+@contextlib.contextmanager
+def py_gamma_iter():
+    """real flexsolve, but dew_point.gamma_iter through its py_func (numba cannot type the stand-in Gamma.f)"""
+    e = env()
+    gi = e['real_gamma_iter']
+    e['dpm'].gamma_iter = getattr(gi, 'py_func', gi)
+    try:
+        yield
+    finally:
+        e['dpm'].gamma_iter = gi
 
 def install(pk):
     """Re-parametrise the pooled stub chemicals for this case and return (chemical tuple, thermo)."""
@@ -604,14 +630,17 @@ def check_pair(BP, DP, chs, z, T, P, ideal, label):
     if P is not None:
         Tb, y = BP.solve_Ty(z.copy(), P)
         Td, x = DP.solve_Tx(z.copy(), P)
-        if abs(1 - y.sum()) > 1e-9 or (y < 0).any(): return f'{label}: bubble y not normalised: sum={y.sum()!r}'
-        if abs(1 - x.sum()) > 1e-9 or (x < 0).any(): return f'{label}: dew x not normalised: sum={x.sum()!r}'
+        # (sign test only where every vapour pressure is positive: the quadratic stand-ins are negative below their T0)
+        pos_b = all(c.Psat(Tb) > 0 for c in chs); pos_d = all(c.Psat(Td) > 0 for c in chs)
+        if abs(1 - y.sum()) > 1e-9 or (pos_b and (y < 0).any()): return f'{label}: bubble y not normalised: sum={y.sum()!r}, y={y.tolist()}'
+        if abs(1 - x.sum()) > 1e-9 or (pos_d and (x < 0).any()): return f'{label}: dew x not normalised: sum={x.sum()!r}, x={x.tolist()}'
         if npos == 1:
             c = chs[int(np.argmax(z > 0))]
             exp = c.Tsat(P, check_validity=False) if P <= c.Pc else c.Tc
             if rel(Tb, exp) > 1e-9 or rel(Td, exp) > 1e-9:
                 return f'{label}: single component {c.ID}: T_bubble={Tb!r}, T_dew={Td!r}, Tsat(P)={exp!r}'
-            if P <= c.Pc and rel(c.Psat(Tb), P) > 1e-4:
+            # Chemical.Tsat returns the tabulated Tb at exactly 101325 Pa without consulting Psat (see C08_Tsat_is_saturation)
+            if P <= c.Pc and not (P == 101325 and c.Tb) and rel(c.Psat(Tb), P) > 1e-4:
                 return f'{label}: single component {c.ID}: Psat(T)={c.Psat(Tb)!r} differs from P={P!r}'
             return None
         inside = BP.Tmin + 10 < Tb < BP.Tmax - 10 and BP.Tmin + 10 < Td < BP.Tmax - 10
@@ -714,9 +743,10 @@ def oracle(case):
         if P is not None and any(P > c['Pc'] for c in pk['chems']):
             return None
         try:
-            m = check_pair(BP, DP, cs, z, T, P, ideal, label) if ideal else None
-            if m: return m
-            return invariance(BP, DP, BPp, DPp, z, perm, 3., T, P, label)
+            with py_gamma_iter():
+                m = check_pair(BP, DP, cs, z, T, P, ideal, label) if ideal else None
+                if m: return m
+                return invariance(BP, DP, BPp, DPp, z, perm, 3., T, P, label)
         except (RuntimeError, FloatingPointError, e['InfeasibleRegion']):
             return None          # real solver left the stand-in package's domain: nothing to compare
     if kd == 'cache':
